@@ -540,7 +540,9 @@ func (r *RTPReceiver) readRTP(b []byte, reader *TrackRemote) (n int, a intercept
 		return 0, nil, io.EOF
 	}
 
-	if t := r.streamsForTrack(reader); t != nil {
+	// A track that was configured but whose streams were never started (a
+	// remote description listing several sources in one media section) has no reader.
+	if t := r.streamsForTrack(reader); t != nil && t.rtpInterceptor != nil {
 		return t.rtpInterceptor.Read(b, a)
 	}
 
